@@ -131,6 +131,30 @@ def theorems_in(vfile):
     return re.findall(r"^\s*(?:Theorem|Corollary)\s+([A-Za-z0-9_']+)", text, flags=re.M)
 
 
+def strip_coq_comments(text):
+    """blank out (possibly nested, possibly multi-line) Coq comments, keeping line structure; string literals are kept"""
+    out, depth, i, n, instr = [], 0, 0, len(text), False
+    while i < n:
+        c = text[i]
+        if depth == 0 and c == '"':
+            instr = not instr
+            out.append(c)
+        elif not instr and text.startswith("(*", i):
+            depth += 1
+            out.append("  ")
+            i += 2
+            continue
+        elif not instr and depth > 0 and text.startswith("*)", i):
+            depth -= 1
+            out.append("  ")
+            i += 2
+            continue
+        else:
+            out.append(c if (depth == 0 or c == "\n") else " ")
+        i += 1
+    return "".join(out)
+
+
 def grep_forbidden():
     """No Axiom/Parameter/Admitted/admit/guard-off anywhere in hand-written Coq."""
     bad = []
@@ -148,8 +172,8 @@ def grep_forbidden():
             if not f.endswith(".v") or f"{d}/{f}" not in listed:
                 continue
             depth = 0
-            for k, line in enumerate(open(os.path.join(dd, f)), 1):
-                code = re.sub(r"\(\*.*?\*\)", "", line)
+            raw_lines = open(os.path.join(dd, f)).read().split("\n")
+            for k, (line, code) in enumerate(zip(raw_lines, strip_coq_comments("\n".join(raw_lines)).split("\n")), 1):
                 if re.match(r"\s*Section\b", code):
                     depth += 1
                 if re.match(r"\s*End\b", code) and depth > 0:
